@@ -2,6 +2,7 @@ import Tmv.Lemmas.ConsSign
 import Tmv.Lemmas.ConsLock2
 import Tmv.Lemmas.ConsGuard
 import Tmv.Lemmas.ConsQuorum
+import Tmv.Lemmas.ConsMoves
 /-! # C02 — a correct validator never equivocates and every vote it casts is justified
 
 Theorems about the node model `Tmv.Cons` (Tmv/Model/Cons.lean), which follows
@@ -132,6 +133,71 @@ theorem lock_monotone (c : Cfg) (is : List Input) :
       simpa [List.foldl] using this
   exact this is _ init_A
 
+/-- **precommit_backed_by_delivered_prevotes**: when the node has signed a precommit for block `b` in
+round `r`, more than two thirds of the total power — counted over DISTINCT validators `v` — is carried
+by validators whose well-formed round-`r` prevote for `b` (index `v`, address of `v`, intact signature
+by `v`'s key) is among the inputs delivered so far, or, for the node itself, is a prevote it signed.
+(Holds after every prefix of the inputs, hence "delivered before the precommit was signed", up to the
+input during which it was signed.) `wtUpTo power p n` is the total power of the validators `< n`
+satisfying `p`. -/
+theorem precommit_backed_by_delivered_prevotes (c : Cfg) (is : List Input) (hnf : NoFutureTimeout c .init is) :
+    ∀ r b, Output.signVote .precommit r (some b) ∈ (run c .init is).out →
+      2 * c.total < 3 * Tmv.VoteLog.wtUpTo c.power
+        (fun v => deliveredBy is .prevote (r : Int) (some b) v ||
+                  ownVote c (run c .init is).out .prevote (r : Int) (some b) v) c.n := by
+  intro r b h
+  obtain ⟨vs, hv, _, hq⟩ := precommit_justified c is hnf r b h
+  have hd : D c ([] ++ is) (run c .init is) := run_D is init_D
+  simp only [List.nil_append] at hd
+  have := hd.ms.blockSum_le (t := .prevote) hv (some b)
+  unfold Ev at this
+  omega
+
+/-- **precommit_holds_block**: a block the node precommits was delivered to it complete (a
+`blockComplete b` input) or is the block it creates itself as proposer. Every input list, no
+hypothesis. (`Tmv.Cons.enterPrecommit_locks_what_it_precommits` is the local form: the step that emits
+the precommit leaves the node locked on exactly `b` in exactly that round, and `b` was its locked block
+or its complete proposal block when `enterPrecommit` began.) -/
+theorem precommit_holds_block (c : Cfg) (is : List Input) :
+    ∀ r b, Output.signVote .precommit r (some b) ∈ (run c .init is).out →
+      Input.blockComplete b ∈ is ∨ b = c.ownBlock := by
+  have h : H c ([] ++ is) (run c .init is) := run_H is init_H
+  simp only [List.nil_append] at h
+  exact h.pc
+
+/-- every state the node can be in satisfies the lock sanity invariant (A) -/
+theorem reachable_A (c : Cfg) (is : List Input) : A (run c .init is) := lock_monotone c is
+
+/-- **lock_moves** (relational form of lock_monotone, one `step` from any reachable state): across
+the handling of one input — a timeout only for a round reached — (Round, LockedRound, LockedBlock)
+changes only by a sequence of: the round advancing; `LockedRound := Round, LockedBlock := b` where the
+prevotes of that round have a recorded +2/3 majority for `b` (the lock / re-lock of `enterPrecommit`);
+`LockedRound := -1, LockedBlock := nil` where a +2/3 prevote majority for something other than the
+locked block is recorded for a round in `(LockedRound, Round]` (the unlock rules of `addVote` and
+`enterPrecommit`). Majorities are read off the vote sets after the step; they are never replaced. -/
+theorem lock_moves (c : Cfg) (is : List Input) (i : Input) (hi : i.notFuture (run c .init is)) :
+    LockMoves (step c (run c .init is) i).votes
+      ((run c .init is).round, (run c .init is).lockedRound, (run c .init is).lockedBlock)
+      ((step c (run c .init is) i).round, (step c (run c .init is) i).lockedRound,
+       (step c (run c .init is) i).lockedBlock) :=
+  (step_rel i hi (reachable_A c is)).2
+
+/-- **scheduled_timeouts_suffice**: the hypothesis `NoFutureTimeout` follows from the input discipline
+of a faithful ticker — every delivered timeout was scheduled by the node before (`schedule r st` is
+among its outputs at that point) or is a round-0 timeout (the start-of-height timeout is scheduled
+outside the state machine): the node only ever schedules timeouts for rounds it has reached. -/
+theorem scheduled_timeouts_suffice (c : Cfg) (is : List Input) (h : TimeoutsWereScheduled c .init is) :
+    NoFutureTimeout c .init is :=
+  scheduled_noFuture is init_S h
+
+/-- the lock rule for histories with a faithful ticker -/
+theorem prevote_respects_lock_scheduled (c : Cfg) (is : List Input) (h : TimeoutsWereScheduled c .init is) :
+    ∀ r b r' x, Output.signVote .precommit r (some b) ∈ (run c .init is).out →
+      Output.signVote .prevote r' x ∈ (run c .init is).out → r < r' → x ≠ some b →
+      ∃ (r'' : Nat) (y : Bid), r < r'' ∧ r'' ≤ r' ∧ y ≠ some b ∧
+        maj23Of ((run c .init is).votes.prevotes (r'' : Int)) = some y :=
+  prevote_respects_lock c is (scheduled_timeouts_suffice c is h)
+
 /-! ### Non-vacuity and a witness -/
 
 /-- 4 validators of power 1, we are validator 0 and the proposer of round 0 -/
@@ -165,6 +231,16 @@ instance instDecNoFuture (c : Cfg) : (s : NodeState) → (is : List Input) → D
     unfold NoFutureTimeout
     have := instDecNoFuture c (step c s i) is
     infer_instance
+
+instance instDecTWS (c : Cfg) : (s : NodeState) → (is : List Input) → Decidable (TimeoutsWereScheduled c s is)
+  | _, [] => isTrue trivial
+  | s, i :: is => by
+    unfold TimeoutsWereScheduled
+    have := instDecTWS c (step c s i) is
+    cases i <;> infer_instance
+
+/-- the lock history below is one a faithful ticker produces -/
+example : TimeoutsWereScheduled (exCfg true 0) .init exLock := by decide
 
 /-- the hypotheses of `precommit_justified` / `prevote_respects_lock` hold of a history in which the
 node does sign a block precommit, gets locked, and prevotes its locked block in the next round -/
